@@ -1,7 +1,7 @@
 # C07 — each layer is served as a correct overlayfs lower directory of the OCI layer
 PROPS["C07"] = dict(
     props_file="Properties/C07.v",
-    harnesses=[dict(cmd="node", mod="cmdmod", model="Model.Node", quick=500, thorough=30000, shard=120,
+    harnesses=[dict(cmd="node", mod="cmdmod", model="Model.NodeCases", quick=420, thorough=30000, shard=70,
                     preamble="Local Open Scope Z_scope. Local Open Scope string_scope.",
                     require=["store.memory", "store.db", "store.fake", "fake.answer.eio", "fake.huge-id", "op.readlink", "op.fgetattr", "opaque.0", "opaque.1", "opaque.2", "node.root", "node.sub",
                              "op.readdir", "op.lookup", "op.forget", "op.getattr", "op.getxattr", "op.listxattr", "op.state",
@@ -9,12 +9,15 @@ PROPS["C07"] = dict(
                              "lookup.miss.memoises", "lookup.registered", "lookup.node", "lookup.whiteout", "lookup.state", "lookup.errno2",
                              "child.normal", "child.whiteout", "child.whiteout.shadowed", "child.opaque-marker", "child.nested-wh",
                              "child.landmark.root", "child.landmark.subdir", "getxattr.errno0", "getxattr.errno34", "getxattr.errno61",
-                             "stack.checked"])],
-    rule="random stacks of 1..4 layer tars over a small path universe (additions, whiteouts, opaque markers, replaced entries of other type, "
+                             "stack.checked", "stack.coq-case"])],
+    rule="(1) random stacks of 1..4 layer tars over a small path universe (additions, whiteouts, opaque markers, replaced entries of other type, "
          "names beginning with .wh., landmarks at the root and below, reserved names), converted with estargz.Writer, opened with the memory "
-         "and the db metadata store, root node from newNode (RootNode body), three opaque modes; one case = one node + a random history of "
-         "Readdir/Lookup(+go-fuse child registration)/Forget/Getattr/Getxattr/Listxattr/state-dir walk; non-trivial = >= 4 distinct kinds of "
-         "children/answers in the case; distinct = distinct (config, metadata view, history, outputs)",
+         "and the db metadata store, root node from the real (*layer).RootNode, three opaque modes; one case = one node + a random history of "
+         "Readdir/Lookup(+go-fuse child registration)/Forget/Getattr/Getxattr/Listxattr/Readlink/Open+file.Getattr/state-dir walk; "
+         "(2) one case per stack in the allowed class: the layers' metadata trees + for every path of every layer what the Go overlay merge of the "
+         "really served trees and the Go OCI application of the tars resolve it to (Coq: overlay_stack / oci_stack / allowed_stack); "
+         "(3) arbitrary metadata trees through an in-memory fake metadata.Reader (any name, file type, attribute magnitude, ids up to 2^32-1: "
+         "EIO paths of inodeOfID); non-trivial = >= 4 distinct kinds of children/answers in the case; distinct = distinct Coq term",
     assumptions=[
         "the metadata view of a node (children map name -> id/attr, as metadata.Reader.ForeachChild/GetChild report it) is the model's input; "
         "that the view equals the layer tar is C02/C05's obligation (the stack oracle checks it end to end on the generated stacks)",
@@ -28,8 +31,9 @@ PROPS["C07"] = dict(
     ],
     level_text="Coq theorems over every children map, every name and every history of Readdir/Lookup/registration/Forget on the node model "
                "(memoisation and go-fuse child cache never change an answer; listed iff lookup succeeds; hidden names never served; whiteout shape; "
-               "opaque xattr in the three modes; inode numbers injective, range-disjoint from the state inodes; overlay merge of served "
-               "directories = OCI application). The model is run against fs/layer/node.go over both metadata stores every run.",
+               "opaque xattr in the three modes; inode numbers injective, range-disjoint from the state inodes; per directory and for whole stacks of "
+               "layer trees in the allowed class (boolean allowed_stack): folding overlayfs over the served trees resolves every path as folding OCI "
+               "application over the marker files does). The models are run against fs/layer/node.go over both metadata stores and a fake store every run.",
     level_note="Model (coq/Model/Node.v, Overlay.v) is hand-written; tie = per-op outputs of the real node methods (listing, lookup kind/attributes, "
                "Getattr of the returned node, xattrs, state dir) on generated layers + model-free oracle incl. overlay-merge vs OCI-apply on stacks.",
     technique="Coq proof: invariant over fold_left step (memo/registration), case analysis on names, induction on paths; correspondence by vm_compute",
